@@ -51,7 +51,7 @@ def budget(tier: str) -> dict[str, Any]:
 
 def gen(rng: Any, tier: str, i: int) -> Any:
     cap = rng.randint(1, 8)
-    period = rng.choice([0.5, 1.0, 2.0, 60.0])
+    period = rng.choice([0.5, 1.0, 2.0, 60.0, 0.1, 0.2, 0.3, 0.7])  # incl. periods that are not exact binary fractions
     align_off = rng.choice([0.0, 0.0, 0.25, -7.5, 1234.0]) if rng.random() < 0.6 else 0.0
     ups = []
     newest = None
